@@ -1,11 +1,11 @@
 SPECIFICATION Spec
 CONSTANTS
   Backend = "badger"
-  MetaAlways = FALSE
+  MetaAlways = TRUE
   PointMeta = TRUE
   Gs = {1,2}
   IdSet = {1, 2}
-  WithReads = FALSE
+  WithReads = TRUE
   Vals = {1, 2}
-INVARIANTS Linearizable Consistent
+INVARIANTS EmitDone Linearizable
 CHECK_DEADLOCK FALSE
